@@ -1,2 +1,82 @@
-(* Props_C03 — reserved. *)
+(* Props_C03 — "A published routing state never changes (snapshot immutability)".
+   Model: Heap.v (object heap, copy-on-write transaction code of tree.go), Heap2.v (router-level
+   histories with snapshots).  Proofs: HeapProofs.v.  Every statement quantifies over ALL histories,
+   ALL eviction schedules of the writable cache (evict_ok: eviction only removes entries) and all fuels. *)
 From FoxBase Require Import Bytes.
+From FoxRoute Require Import Node Tree Heap Heap2 HeapProofs.
+
+(* ---- writes_only_fresh: the ownership invariant ---- *)
+(* one operation of a write transaction: [good mark] = the heap is well formed and every node of the
+   writable cache, and its children array, was allocated at or after [mark].  It is preserved; no object
+   allocated before the mark changes; every in-place write (updateEdge slot, in-place sort / shift of an
+   array, n.key = method: the ghost log s_log) targets an address >= mark. *)
+Theorem writes_only_fresh :
+  forall evict fuel mark o s res s',
+    evict_ok evict -> good mark s -> run_op evict fuel o s = Ok (res, s') ->
+    good mark s' /\
+    (forall a, (a < mark)%positive -> find_node s' a = find_node s a /\ find_arr s' a = find_arr s a) /\
+    (exists l, s_log s' = (l ++ s_log s)%list /\ Forall (fun t => (mark <= t)%positive) l).
+Proof. exact writes_only_fresh_op. Qed.
+Print Assumptions writes_only_fresh.
+
+(* histories: after any history es1 there is a mark m (the allocation pointer at the last snapshot
+   point) with every handed-out roots array, and everything reachable from it, below m
+   (closed = objects below m only point below m), and every in-place write of any continuation es2
+   targets an address >= m: an object allocated after the last snapshot point. *)
+Theorem writes_only_fresh_histories :
+  forall evict fuel es1 es2,
+    evict_ok evict ->
+    let w1 := run evict fuel true init_world es1 in
+    let w2 := run evict fuel true w1 es2 in
+    exists m, Forall (fun r => (r < m)%positive) (w_handed w1) /\ closed m (w_st w1) /\
+              exists l, s_log (w_st w2) = (l ++ s_log (w_st w1))%list /\ Forall (fun t => (m <= t)%positive) l.
+Proof. exact writes_only_fresh_hist. Qed.
+Print Assumptions writes_only_fresh_histories.
+
+(* ---- snapshot_frozen: the property ---- *)
+(* every roots array handed out (Txn.Iter and Txn.Snapshot inside a write transaction, Router.Iter,
+   read-only Txn) during any history es1 reads back the same pure tree after any continuation es2
+   (writes, commits, aborts, more snapshots), for every fuel of abs. *)
+Theorem snapshot_frozen :
+  forall evict fuel es1 es2 r f,
+    evict_ok evict ->
+    let w1 := run evict fuel true init_world es1 in
+    let w2 := run evict fuel true w1 es2 in
+    In r (w_handed w1) -> abs f (w_st w2) r = abs f (w_st w1) r.
+Proof. exact snapshot_frozen_thm. Qed.
+Print Assumptions snapshot_frozen.
+
+(* the published tree (the state requests are served from) at any point of any history *)
+Theorem published_frozen :
+  forall evict fuel es1 es2 f,
+    evict_ok evict ->
+    let w1 := run evict fuel true init_world es1 in
+    let w2 := run evict fuel true w1 es2 in
+    abs f (w_st w2) (p_root (w_pub w1)) = abs f (w_st w1) (p_root (w_pub w1)).
+Proof. exact published_frozen_thm. Qed.
+Print Assumptions published_frozen.
+
+(* the LRU of internal/simplelru with any capacity (4096 in tree.go) is such a schedule *)
+Theorem lru_is_evict_ok : forall cap, evict_ok (lru_evict cap).
+Proof. exact lru_evict_ok. Qed.
+Print Assumptions lru_is_evict_ok.
+
+(* non-vacuity: a concrete history in which the snapshot stays while the transaction moves on *)
+Example snapshot_frozen_nonvacuous :
+  let ev := lru_evict 10 in
+  let w1 := run ev 10 true init_world refute_hist1 in
+  let w2 := run ev 10 true w1 refute_hist2 in
+  w_handed w1 <> [] /\ abs 10 (w_st w2) (s_root (w_st w1)) = abs 10 (w_st w1) (s_root (w_st w1)) /\
+  abs 10 (w_st w2) (s_root (w_st w2)) <> abs 10 (w_st w1) (s_root (w_st w1)).
+Proof. exact snapshot_frozen_example. Qed.
+Print Assumptions snapshot_frozen_nonvacuous.
+
+(* what the mechanism protects against: the same model WITHOUT `t.writable = nil` in snapshot()
+   (reset_on_snapshot = false) violates snapshot_frozen on Begin; Handle GET /a; Iter(); Handle GET /b *)
+Example snapshot_frozen_without_reset_refuted :
+  let ev := lru_evict 10 in
+  let w1 := run ev 10 false init_world refute_hist1 in
+  let w2 := run ev 10 false w1 refute_hist2 in
+  exists r, In r (w_handed w1) /\ abs 10 (w_st w2) r <> abs 10 (w_st w1) r.
+Proof. exact snapshot_frozen_needs_reset. Qed.
+Print Assumptions snapshot_frozen_without_reset_refuted.
